@@ -250,6 +250,15 @@ func (hl *HdrLst) GetHdr(t HdrT) *Hdr {
 	return nil
 }
 
+// atLineStart returns true if no byte of the next header line was consumed
+// yet (the header that would be filled next is still in its initial state).
+func (hl *HdrLst) atLineStart() bool {
+	if hl.N < len(hl.Hdrs) {
+		return hl.Hdrs[hl.N].state == 0
+	}
+	return hl.hdr.state == 0
+}
+
 // SetHdr adds a new header to the  internal "first" header list (see GetHdr)
 // if not already present.
 // It returns true if successful and false if a header of the same type was
